@@ -299,6 +299,8 @@ impl Gen {
       est.push((tid, ops.iter().map(|o| est_steps(o, false)).sum()));
       c.threads.push((tid, ops));
     }
+    // the threads may also share ONE arena value by reference (no clones: refs() == 1 while they run)
+    c.noclone = self.rng.chance(25);
     c.sched = self.schedule(&est);
     c
   }
@@ -440,6 +442,8 @@ impl Gen {
       est.push((tid, ops.iter().map(|o| est_steps(o, true)).sum()));
       c.threads.push((tid, ops));
     }
+    // the threads may also share ONE arena value by reference (no clones: refs() == 1 while they run)
+    c.noclone = self.rng.chance(25);
     c.sched = self.schedule(&est);
     c
   }
@@ -564,6 +568,8 @@ impl Gen {
     if c.threads.len() == 3 {
       est.push((3, 12));
     }
+    // the threads may also share ONE arena value by reference (no clones: refs() == 1 while they run)
+    c.noclone = self.rng.chance(25);
     c.sched = self.schedule(&est);
     c
   }
